@@ -348,7 +348,7 @@ def w_histories(jobs):
 
 def run(rep, tier, seed):
     wd = workdir(PID, "mc", wipe=True)
-    cfg = "MC_Edit4.cfg" if tier == "quick" else "MC_Edit4.cfg"
+    cfg = "MC_Edit4.cfg" if tier == "quick" else "MC_Edit5.cfg"
     out = os.path.join(wd, "mc.out")
     r = run_tlc("Metapype", cfg=os.path.join(SPEC, cfg), stdout_path=out, timeout=1500)
     if not r.ok or r.invariant_violated or r.action_prop_violated:
